@@ -31,6 +31,9 @@ type Case struct {
 	// idle connection timeout left at its 90 s: instances idle for ~0.5 s between their shots
 	// and must still find their connection open
 	Paced bool   `json:"paced,omitempty"`
+	// NamedTarget: the gun's target is written as a host name ("localhost:port") instead of an IP
+	// literal: requests without a Host of their own carry that name, whatever the gun resolved it to
+	NamedTarget bool `json:"named_target,omitempty"`
 	Text  string `json:"file_preview,omitempty"`
 }
 
@@ -93,6 +96,12 @@ func runCase(res *vkit.Result, c Case) {
 		ammo["headers"] = vkit.ConfHeaders(c.Conf)
 	}
 	gun := map[string]any{"type": c.Gun, "target": tgt.Addr, "ssl": c.SSL}
+	tHost, tPort, _ := strings.Cut(tgt.Addr, ":")
+	tAddr := tgt.Addr
+	if c.NamedTarget {
+		tHost, tAddr = "localhost", "localhost:"+tPort
+		gun["target"] = tAddr
+	}
 	if c.NoKeep {
 		gun["disable-keep-alives"] = true
 	}
@@ -129,7 +138,6 @@ func runCase(res *vkit.Result, c Case) {
 	}
 	reqs := tgt.Requests()
 	seen := map[string]int{}
-	tHost, _, _ := strings.Cut(tgt.Addr, ":")
 	for _, r := range reqs {
 		vid := vidOf(r.URI)
 		x, ok := byVid[vid]
@@ -159,7 +167,7 @@ func runCase(res *vkit.Result, c Case) {
 			if r.Host != x.Host {
 				d = append(d, fmt.Sprintf("Host %q want the ammo's %q", r.Host, x.Host))
 			}
-		} else if r.Host != tHost && r.Host != tgt.Addr {
+		} else if r.Host != tHost && r.Host != tAddr {
 			d = append(d, fmt.Sprintf("Host %q want the target's host %q", r.Host, tHost))
 		}
 		// headers: every expected one present with its value(s); nothing beyond the permitted extras
@@ -211,6 +219,16 @@ func runCase(res *vkit.Result, c Case) {
 	conns := int(tgt.NewConns.Load())
 	if c.Gun == "connect" {
 		conns = int(tgt.Connects.Load())
+	}
+	if c.NamedTarget {
+		// a target given by name is probed once for reachability while the config is decoded (a
+		// connection that carries no request and belongs to no instance): the connections that
+		// carried requests are counted instead of the accepted ones
+		used := map[string]bool{}
+		for _, r := range reqs {
+			used[r.Conn] = true
+		}
+		conns = len(used)
 	}
 	if c.NoKeep {
 		if conns != total {
@@ -327,7 +345,11 @@ func main() {
 	for i := 0; i < vkit.N(200, 2500); i++ {
 		cases = append(cases, gen(rng, i))
 	}
-	for _, c := range cases {
+	for i, c := range cases {
+		if c.Gun == "http" && i%5 == 2 {
+			c.NamedTarget = true
+			res.Count("cases_with_named_target", 1)
+		}
 		runCase(res, c)
 	}
 	if res.Counter("requests_matched") < 100 || res.Counter("cases_with_config_headers") < 10 {
